@@ -28,7 +28,7 @@ Step(d, v) == /\ Changed(pres) < MaxActs /\ pres[d] = Pres0[d] /\ v # Pres0[d]
 RegCase   == \E v \in {"upper", "mixed"} : Step("rc", v) /\ HasReg(line)
 KwCase    == \E v \in {"lower", "mixed"} : Step("kc", v) /\ HasKw(line)
 Spacing   == \E v \in {"tight", "wide"} : Step("sp", v) /\ Len(line.ops) > 0
-NumBase   == \E v \in {"hexl", "hexu"} : Step("nb", v)
+NumBase   == \E v \in {"hexl", "hexu", "dec0"} : Step("nb", v)      \* 16 <-> 0x10 <-> 0X10; 4 <-> 04 (values 1..7 only: see vf/asm_text.py)
 ImmSign   == Step("isg", TRUE)                          \* -1 <-> 2^w - 1 at the width of the operation
 DispSign  == Step("dsg", TRUE)                          \* [eax-1] <-> [eax+4294967295]
 TermOrder == \E v \in {"ibd", "dbi", "bdi"} : Step("ord", v) /\ pres.syn = "intel"
